@@ -446,6 +446,9 @@ func refusesEveryWrite(w *world.World, ro *fox.Txn, pool []*model.Pattern) strin
 		tries = append(tries, try{"Truncate(" + regMethod + ")", ro.Truncate(regMethod)})
 	}
 	tries = append(tries, try{"Truncate()", ro.Truncate()})
+	// ... and for methods that have no route in this view (there would be nothing to remove: still a write)
+	tries = append(tries, try{"Truncate(TRACE, UNLINK)", ro.Truncate("TRACE", "UNLINK")})
+	tries = append(tries, try{"Truncate(UNLINK)", ro.Truncate("UNLINK")})
 	for _, t := range tries {
 		if !errors.Is(t.err, fox.ErrReadOnlyTxn) {
 			return fmt.Sprintf("%s returned %v, want ErrReadOnlyTxn", t.what, t.err)
